@@ -487,6 +487,18 @@ def z3_to_py(v):
         return True
     if z3.is_false(v):
         return False
+    try:
+        if z3.is_fp_value(v):
+            import math as _m
+
+            if v.isNaN():
+                return float("nan")
+            if v.isInf():
+                return float("-inf") if v.isNegative() else float("inf")
+            sv = v.as_string()
+            return Fraction(float(_fp_to_float(v)))
+    except Exception:  # noqa: BLE001
+        pass
     return None
 
 
@@ -495,6 +507,26 @@ class _Forked(int):
 
     def __repr__(self):
         return f"F{int(self)}"
+
+
+def _fp_to_float(v):
+    """exact value of a z3 FP numeral"""
+    import numpy as _np
+
+    bv = z3.simplify(z3.fpToIEEEBV(v)).as_long()
+    nbits = v.ebits() + v.sbits()
+    if nbits == 16:
+        return float(_np.array([bv], dtype=_np.uint16).view(_np.float16)[0])
+    if nbits == 32:
+        return float(_np.array([bv], dtype=_np.uint32).view(_np.float32)[0])
+    return float(_np.array([bv], dtype=_np.uint64).view(_np.float64)[0])
+
+
+class _Chosen(int):
+    """A binary scheduling choice (counts as a split unit when the path space is partitioned across workers)."""
+
+    def __repr__(self):
+        return f"C{int(self)}"
 
 
 class Cex:
@@ -725,7 +757,7 @@ class Explorer:
                 else:
                     if r_t == z3.unknown or r_f == z3.unknown:
                         self.incomplete = self.incomplete or "solver unknown at a branch"
-                    nf = sum(1 for x in self.prefix[: self.pos] if isinstance(x, _Forked))
+                    nf = sum(1 for x in self.prefix[: self.pos] if isinstance(x, (_Forked, _Chosen)))
                     if self.part is not None and nf < self.part[1]:
                         d = _Forked((self.part[0] >> nf) & 1)
                     else:
@@ -745,14 +777,18 @@ class Explorer:
         if self.pos < len(self.prefix):
             d = self.prefix[self.pos]
         else:
-            d = 0
-            for k in range(n - 1, 0, -1):
-                self.pending.append(self.prefix[: self.pos] + [k])
-            self.stats.forks += n - 1
+            nf = sum(1 for x in self.prefix[: self.pos] if isinstance(x, (_Forked, _Chosen)))
+            if self.part is not None and nf < self.part[1] and n == 2:
+                d = _Chosen((self.part[0] >> nf) & 1)  # partitioned across workers like a binary fork
+            else:
+                d = _Chosen(0) if n == 2 else 0
+                for k in range(n - 1, 0, -1):
+                    self.pending.append(self.prefix[: self.pos] + [_Chosen(k) if n == 2 else k])
+                self.stats.forks += n - 1
             self.prefix.append(d)
         self.pos += 1
         self.stats.decisions += 1
-        return d
+        return int(d)
 
     def unique_value(self, t):
         s = z3.simplify(t)
@@ -1006,6 +1042,11 @@ class Explorer:
         return self
 
 
+def data_decisions(ctx):
+    """The branch decisions (forced or forked) taken so far on this path, without the scheduling choices."""
+    return tuple(bool(d) for d in ctx.prefix[: ctx.pos] if isinstance(d, (bool, _Forked)))
+
+
 def schedule_of(cex):
     """The explorer's `choose` decisions (thread-schedule choices) of a counterexample, in order."""
     return [int(d) for d in cex.path if not isinstance(d, (bool, _Forked, tuple))]
@@ -1013,3 +1054,85 @@ def schedule_of(cex):
 
 def explore(body, **kw) -> Explorer:
     return Explorer(body, **kw).run()
+
+
+# ----------------------------------------------------------------------------
+# bit-precise IEEE-754 scalars at reduced width (sort F16): only what get_closest needs
+
+FP16 = z3.Float16()
+_RNE = z3.RNE()
+
+
+class SymFP(Sym):
+    """A symbolic IEEE-754 half-precision number (z3 FloatingPoint sort): every operation is the bit-precise IEEE one."""
+
+    __slots__ = ()
+
+    @staticmethod
+    def _l(o):
+        if isinstance(o, SymFP):
+            return o.t
+        if isinstance(o, (int, float, np.floating, np.integer)):
+            return z3.FPVal(float(o), FP16)
+        return NotImplemented
+
+    def _fb(self, o, f, swap=False):
+        ot = SymFP._l(o)
+        if ot is NotImplemented:
+            return NotImplemented
+        a, b = (ot, self.t) if swap else (self.t, ot)
+        return SymFP(f(a, b))
+
+    def __sub__(self, o):
+        return self._fb(o, lambda a, b: z3.fpSub(_RNE, a, b))
+
+    def __rsub__(self, o):
+        return self._fb(o, lambda a, b: z3.fpSub(_RNE, a, b), True)
+
+    def __add__(self, o):
+        return self._fb(o, lambda a, b: z3.fpAdd(_RNE, a, b))
+
+    __radd__ = __add__
+
+    def __neg__(self):
+        return SymFP(z3.fpNeg(self.t))
+
+    def __abs__(self):
+        return SymFP(z3.fpAbs(self.t))
+
+    def _fc(self, o, f):
+        ot = SymFP._l(o)
+        if ot is NotImplemented:
+            return NotImplemented
+        return SymBool(f(self.t, ot))
+
+    def __lt__(self, o):
+        return self._fc(o, z3.fpLT)
+
+    def __le__(self, o):
+        return self._fc(o, z3.fpLEQ)
+
+    def __gt__(self, o):
+        return self._fc(o, z3.fpGT)
+
+    def __ge__(self, o):
+        return self._fc(o, z3.fpGEQ)
+
+    def __eq__(self, o):
+        return self._fc(o, z3.fpEQ)
+
+    def __ne__(self, o):
+        return self._fc(o, lambda a, b: z3.Not(z3.fpEQ(a, b)))
+
+    def __hash__(self):
+        return hash(self.t)
+
+    def __repr__(self):
+        return f"SymFP({self.t})"
+
+
+def fp16_var(ctx, name):
+    v = z3.FP(name, FP16)
+    ctx.inputs[name] = v
+    ctx.solver.add(z3.Not(z3.fpIsNaN(v)), z3.Not(z3.fpIsInf(v)))
+    return SymFP(v)
